@@ -28,12 +28,29 @@ import sys
 import time
 
 VERIF = os.path.dirname(os.path.dirname(os.path.abspath(__file__)))
-REPO = "/repo"
-KANI_DIR = os.path.join(VERIF, "kani")
-BUILD = os.path.join(VERIF, ".build")
-EVIDENCE = os.path.join(VERIF, "evidence")
-REPLAYS = os.path.join(VERIF, "replays")
+# The registered commands always check /repo. For development (running seeded changes in
+# parallel without touching /repo) VERIF_REPO points the whole machinery at a scratch
+# worktree; build output, evidence and replays then go under VERIF_BUILD instead.
+REPO = os.environ.get("VERIF_REPO", "/repo")
+ALT = REPO != "/repo"
+BUILD = os.environ.get("VERIF_BUILD") or os.path.join(VERIF, ".build")
+KANI_SRC = os.path.join(VERIF, "kani")
+KANI_DIR = os.path.join(BUILD, "kani-crate") if ALT else KANI_SRC
+EVIDENCE = os.path.join(BUILD, "evidence") if ALT else os.path.join(VERIF, "evidence")
+REPLAYS = os.path.join(BUILD, "replays") if ALT else os.path.join(VERIF, "replays")
 KNOWN = os.path.join(VERIF, "known_findings.json")
+
+
+def prepare_alt_crate():
+    """Copy the harness crate with its path dependency redirected to VERIF_REPO."""
+    if not ALT:
+        return
+    if os.path.exists(KANI_DIR):
+        shutil.rmtree(KANI_DIR)
+    os.makedirs(KANI_DIR)
+    shutil.copytree(os.path.join(KANI_SRC, "src"), os.path.join(KANI_DIR, "src"))
+    toml = open(os.path.join(KANI_SRC, "Cargo.toml")).read().replace('path = "/repo"', 'path = "%s"' % REPO)
+    open(os.path.join(KANI_DIR, "Cargo.toml"), "w").write(toml)
 
 sys.path.insert(0, os.path.join(VERIF, "lib"))
 
@@ -64,9 +81,9 @@ def module_files(prop):
     """Source files holding the harnesses of a property (hand-written + generated)."""
     p = prop.lower()
     files = []
-    for name in sorted(os.listdir(os.path.join(KANI_DIR, "src"))):
+    for name in sorted(os.listdir(os.path.join(KANI_SRC, "src"))):
         if name == p + ".rs" or name.startswith(p + "_"):
-            files.append(os.path.join(KANI_DIR, "src", name))
+            files.append(os.path.join(KANI_SRC, "src", name))
     return files
 
 
@@ -298,6 +315,9 @@ def concrete_playback(prop, h, tier_cfg):
     cmd = ["cargo", "kani", "--features", feature_of(h["module"]), "--target-dir", kani_target_dir(),
            "--output-format", "terse", "-Z", "unstable-options", "--harness-timeout",
            "%ds" % tier_cfg["timeout"], "-Z", "concrete-playback", "--concrete-playback=print",
+           # without this CBMC's formula slicing can drop the nondet assignments from the trace and
+           # Kani then prints a playback test with no concrete values
+           "--no-slice-formula",
            "--exact", "--harness", h["id"]] + flags
     if h["stubs"]:
         cmd += ["-Z", "stubbing"]
@@ -310,8 +330,12 @@ def concrete_playback(prop, h, tier_cfg):
     tests = []
     for m in PLAYBACK_BLOCK.finditer(text):
         src = m.group(2)
-        cm = re.search(r"/// Check for `([^`]*)`: \"(.*)\"", src)
+        cm = re.search(r"/// Check for `([^`]*)`: \"(.*?)\"\s*\n\s*(?:\n|#\[test\])", src, re.S)
         kind, desc = (cm.group(1), cm.group(2)) if cm else ("", "")
+        # keep only the test function: a multi-line check description breaks the doc comment
+        k = src.find("#[test]")
+        if k >= 0:
+            src = src[k:]
         tests.append((kind, desc, src))
     return tests
 
@@ -383,6 +407,8 @@ def desc_matches(check, kind, desc):
 def check_property(prop, tier, only=None, jobs=None, seed=0, skip_smt=False, skip_kani=False):
     t_start = time.time()
     tier_cfg = TIERS[tier]
+    os.makedirs(BUILD, exist_ok=True)
+    prepare_alt_crate()
     known = load_known()
     harnesses = discover_harnesses(prop)
     if tier == "quick":
@@ -482,7 +508,10 @@ def check_property(prop, tier, only=None, jobs=None, seed=0, skip_smt=False, ski
                     new_fails.append(c)
             if incon:
                 descs = sorted(set(c.get("description", "") for c in incon))
-                why = "bound too small or unsupported construct: " + "; ".join(descs)[:300]
+                if any(c.get("status") == "Error" for c in incon) or len(incon) > 50:
+                    why = "CBMC solver error / out of memory (%d checks undetermined; memory cap %d MB)" % (len(incon), tier_cfg["mem_kb"] // 1000)
+                else:
+                    why = "bound too small or unsupported construct: " + "; ".join(descs)[:300]
                 log("INCONCLUSIVE: property=%s harness=%s %s" % (prop, h["name"], why))
                 ev["inconclusive"].append({"harness": h["name"], "why": why})
             if new_fails:
